@@ -14,7 +14,16 @@ import (
 func init() { emitters["Regions"] = emitRegions }
 
 type regionCtx struct {
-	funcs map[string]*ast.FuncDecl // by name (methods and functions of the package)
+	funcs map[string][]*ast.FuncDecl // by name (methods and functions of the package; a method name can have several receivers)
+	recvs map[string]bool            // identifiers accepted as receivers of intra-package calls ("" = plain function)
+	anyRecv bool
+}
+
+func (rc *regionCtx) first(name string) *ast.FuncDecl {
+	if l := rc.funcs[name]; len(l) > 0 {
+		return l[0]
+	}
+	return nil
 }
 
 func isExitCall(c *ast.CallExpr) bool {
@@ -73,11 +82,11 @@ func (rc *regionCtx) hasDeferredRecover(body *ast.BlockStmt) bool {
 				return true
 			}
 		case *ast.Ident:
-			if fd := rc.funcs[f.Name]; fd != nil && fd.Body != nil && callsRecover(fd.Body) {
+			if fd := rc.first(f.Name); fd != nil && fd.Body != nil && callsRecover(fd.Body) {
 				return true
 			}
 		case *ast.SelectorExpr:
-			if fd := rc.funcs[f.Sel.Name]; fd != nil && fd.Body != nil && callsRecover(fd.Body) {
+			if fd := rc.first(f.Sel.Name); fd != nil && fd.Body != nil && callsRecover(fd.Body) {
 				return true
 			}
 		}
@@ -133,15 +142,19 @@ func (rc *regionCtx) bodyRegion(name string, body *ast.BlockStmt, stack []string
 				children = append(children, fmt.Sprintf("Region.leaf \"treewalk\" %v", listenerExit))
 				return true
 			}
-			if fd := rc.funcs[fn]; fd != nil && fd.Body != nil && (recv == "" || recv == "p" || recv == "listener" || recv == "s") {
+			if cands := rc.funcs[fn]; len(cands) > 0 && (rc.anyRecv || rc.recvs[recv]) {
 				for _, s := range stk {
-					if s == fn {
+					if s == fn || strings.HasSuffix(s, "."+fn) {
 						// recursion: the callee's region is the one already being described
 						children = append(children, fmt.Sprintf("Region.leaf %s false", leanStr("rec:"+fn)))
 						return true
 					}
 				}
-				children = append(children, rc.funcRegion(fd, stk, listenerExit))
+				for _, fd := range cands {
+					if fd.Body != nil {
+						children = append(children, rc.funcRegion(fd, stk, listenerExit))
+					}
+				}
 			}
 		}
 		return true
@@ -161,7 +174,19 @@ func (rc *regionCtx) litRegion(name string, lit *ast.FuncLit, stack []string, li
 }
 
 func (rc *regionCtx) funcRegion(fd *ast.FuncDecl, stack []string, listenerExit bool) string {
-	r := rc.bodyRegion(fd.Name.Name, fd.Body, stack, listenerExit)
+	name := fd.Name.Name
+	if fd.Recv != nil && len(fd.Recv.List) == 1 && len(rc.funcs[name]) > 1 {
+		// several receivers share the method name: qualify the leaf
+		switch t := fd.Recv.List[0].Type.(type) {
+		case *ast.StarExpr:
+			if id, ok := t.X.(*ast.Ident); ok {
+				name = id.Name + "." + name
+			}
+		case *ast.Ident:
+			name = t.Name + "." + name
+		}
+	}
+	r := rc.bodyRegion(name, fd.Body, stack, listenerExit)
 	if rc.hasDeferredRecover(fd.Body) {
 		return "Region.guarded (" + r + ")"
 	}
@@ -171,7 +196,7 @@ func (rc *regionCtx) funcRegion(fd *ast.FuncDecl, stack []string, listenerExit b
 func emitRegions() {
 	fset := token.NewFileSet()
 	files := parseDir(fset, "pkg/parse", false)
-	rc := &regionCtx{funcs: map[string]*ast.FuncDecl{}}
+	rc := &regionCtx{funcs: map[string][]*ast.FuncDecl{}, recvs: map[string]bool{"": true, "p": true, "listener": true, "s": true}}
 	listenerExit := false
 	var exitSites []string
 	for _, f := range files {
@@ -180,8 +205,8 @@ func emitRegions() {
 			if !ok || fd.Body == nil {
 				continue
 			}
-			if _, dup := rc.funcs[fd.Name.Name]; !dup {
-				rc.funcs[fd.Name.Name] = fd
+			if len(rc.funcs[fd.Name.Name]) == 0 {
+				rc.funcs[fd.Name.Name] = []*ast.FuncDecl{fd}
 			}
 			isListener := false
 			if fd.Recv != nil && len(fd.Recv.List) == 1 {
@@ -199,7 +224,7 @@ func emitRegions() {
 			}
 		}
 	}
-	root := rc.funcs["Parse"]
+	root := rc.first("Parse")
 	if root == nil {
 		die("(*Parser).Parse not found")
 	}
@@ -211,4 +236,52 @@ func emitRegions() {
 	b.WriteString("/-- functions of pkg/parse that contain a process-exit call (os.Exit, logrus.Fatal*, log.Fatal*) -/\n")
 	fmt.Fprintf(&b, "def parseExitSites : List String := %s\n\nend SyslModel.Gen\n", leanStrList(exitSites))
 	writeGen("Regions.lean", b.String())
+}
+
+func init() { emitters["CmdRegions"] = emitCmdRegions }
+
+// CmdRegions: the region tree of the sysl command (cmd/sysl), rooted at main2; every Execute
+// method of a command is a child of the runner.
+func emitCmdRegions() {
+	fset := token.NewFileSet()
+	files := parseDir(fset, "cmd/sysl", false)
+	rc := &regionCtx{funcs: map[string][]*ast.FuncDecl{}, anyRecv: true}
+	var exitSites []string
+	for _, f := range files {
+		for _, d := range f.Decls {
+			fd, ok := d.(*ast.FuncDecl)
+			if !ok || fd.Body == nil {
+				continue
+			}
+			rc.funcs[fd.Name.Name] = append(rc.funcs[fd.Name.Name], fd)
+			if containsExit(fd.Body) {
+				exitSites = append(exitSites, fd.Name.Name)
+			}
+		}
+	}
+	root := rc.first("main2")
+	if root == nil {
+		die("main2 not found in cmd/sysl")
+	}
+	prog := rc.funcRegion(root, nil, false)
+	var cmds []string
+	for _, fd := range rc.funcs["Execute"] {
+		if fd.Recv != nil && len(fd.Recv.List) == 1 {
+			switch t := fd.Recv.List[0].Type.(type) {
+			case *ast.StarExpr:
+				if id, ok := t.X.(*ast.Ident); ok {
+					cmds = append(cmds, id.Name)
+				}
+			case *ast.Ident:
+				cmds = append(cmds, t.Name)
+			}
+		}
+	}
+	var b strings.Builder
+	b.WriteString("import SyslModel.Guard.Model\nnamespace SyslModel.Gen\nopen SyslModel.Guard\n\n")
+	b.WriteString("/-- region tree of the sysl command from cmd/sysl/*.go, rooted at main2 -/\n")
+	b.WriteString("def cmdProgram : Region :=\n  " + prog + "\n\n")
+	fmt.Fprintf(&b, "/-- command types that implement Execute -/\ndef cmdTypes : List String := %s\n\n", leanStrList(cmds))
+	fmt.Fprintf(&b, "/-- functions of cmd/sysl that contain a process-exit call -/\ndef cmdExitSites : List String := %s\n\nend SyslModel.Gen\n", leanStrList(exitSites))
+	writeGen("CmdRegions.lean", b.String())
 }
